@@ -132,7 +132,7 @@ def run_impl(c):
                     if c.get('negeig') and key == 'G':
                         # an indefinite factor (as low-precision storage produces): a negative eigenvalue comparable to the
                         # damping; the eigen method must treat it as 0 (PSD projection), the inverse method inverts G + damping I as is
-                        spec[0] = -0.5 * float(p.damping)
+                        spec[0] = (-0.5 if (c['seed'] % 2) else -2.0) * float(p.damping)
                     fs[key] = torch.tensor(psd(rng, n, spec), dtype=fs[key].dtype)
             p.load_state_dict(sd)
         passes()
